@@ -617,6 +617,7 @@ func (cl *Client) PollRecords(ctx context.Context, maxPollRecords int) Fetches {
 	// we guarantee that we just drain anything available and return.
 	fill()
 	c.runDeferredFetchHooks()
+	verifPoint("poll.filled")
 	if len(fetches) > 0 || ctx == nil {
 		return fetches
 	}
@@ -654,6 +655,7 @@ func (cl *Client) PollRecords(ctx context.Context, maxPollRecords int) Fetches {
 
 	fill()
 	c.runDeferredFetchHooks()
+	verifPoint("poll.filled")
 	return fetches
 }
 
@@ -1891,6 +1893,7 @@ func (c *consumer) stopSession() (listOrEpochLoads, *topicsPartitions) {
 	// At this point, any in progress fetches, offset lists, or epoch loads
 	// will quickly die.
 
+	verifPoint("session.cancelled")
 	c.session.Store(noConsumerSession)
 
 	// At this point, no source can be started, because the session is
